@@ -16,6 +16,24 @@ type heapLayer struct {
 	prevEpoch int
 	prevLayer *heapLayer
 	allocOld  Term
+	allocNew  Term
+}
+
+// heapWF states the well-formedness of a fresh heap symbol: every reference stored in it is allocated.
+func (u *Unit) heapWF(h Term, vs Sort, alloc Term) {
+	if alloc.S == "" {
+		return
+	}
+	l := Sym("l!", SLoc)
+	v := Select(h, l, vs)
+	switch vs {
+	case SLoc:
+		u.assume(True, Forall([]Term{l}, And(Le(Obj(v), alloc), Ge(Off(v), IntLit(0))), []Term{v}))
+	case SSlice:
+		u.assume(True, Forall([]Term{l}, And(Le(Obj(SPtr(v)), alloc), Le(IntLit(0), SLen(v)), Le(SLen(v), SCap(v)), Ge(Off(SPtr(v)), IntLit(0))), []Term{v}))
+	case SIface:
+		u.assume(True, Forall([]Term{l}, Le(Obj(IVal(v)), alloc), []Term{v}))
+	}
 }
 
 func (u *Unit) heapResolve(heaps map[string]Term, epoch int, layer *heapLayer, key string, vs Sort) Term {
@@ -24,12 +42,19 @@ func (u *Unit) heapResolve(heaps map[string]Term, epoch int, layer *heapLayer, k
 		return t
 	}
 	if layer == nil {
-		return u.declareOnce(fmt.Sprintf("H!%s!%d", key, epoch), hs)
+		name := fmt.Sprintf("H!%s!%d", key, epoch)
+		isNew := !u.declared[quoteSym(name)]
+		h := u.declareOnce(name, hs)
+		if isNew {
+			u.heapWF(h, vs, u.epochAlloc[epoch])
+		}
+		return h
 	}
 	prev := u.heapResolve(layer.prevHeaps, layer.prevEpoch, layer.prevLayer, key, vs)
 	h := u.fresh("Hc!"+key, hs)
 	l := Sym("l!", SLoc)
 	u.assume(True, Forall([]Term{l}, Implies(Le(Obj(l), layer.allocOld), Eq(Select(h, l, vs), Select(prev, l, vs))), []Term{Select(h, l, vs)}))
+	u.heapWF(h, vs, layer.allocNew)
 	heaps[key] = h
 	return h
 }
@@ -165,6 +190,11 @@ func (fr *Frame) callFunction(fn *ssa.Function, args []Term, binds []Term, st *S
 	u := fr.u
 	pos := site.Pos()
 	key := funcKey(fn)
+	if fn.Signature.Recv() != nil && len(args) > 0 && args[0].Sort == SLoc && u.w.inRepo(fnPkgPath(fn)) {
+		if _, isPtr := fn.Signature.Recv().Type().Underlying().(*types.Pointer); isPtr {
+			u.oblige(fr, "pre", pos, fmt.Sprintf("%s receiver is non-nil", key), st.pc, Neq(args[0], NilLoc), false)
+		}
+	}
 	if h, ok := intrinsics[intrinsicName(fn)]; ok {
 		if res, st2, handled := h(fr, fn, args, st, site, argVals); handled {
 			return res, st2
@@ -223,6 +253,7 @@ func (fr *Frame) unknownCall(key string, results *types.Tuple, st *State, pos to
 	a := u.fresh("alloc", SInt)
 	u.assume(True, Ge(a, st.alloc))
 	st.alloc = a
+	u.epochAlloc[st.epoch] = a
 	return fr.freshResults(results, st, "unk"), st
 }
 
@@ -581,14 +612,26 @@ func (fr *Frame) execAppend(c *ssa.CallCommon, args []Term, st *State, pos token
 	h2 := u.fresh("Ha!"+key, ArraySort(SLoc, vs))
 	l := Sym("l!", SLoc)
 	i := Sym("i!", SInt)
-	// 1. old elements are where they were (in place) or copied (fresh)
-	u.assume(st.pc, Forall([]Term{i}, Implies(And(Le(IntLit(0), i), Lt(i, SLen(s))),
-		Eq(Select(h2, MkLoc(Obj(base), Add(Off(base), i)), vs), Select(h, MkLoc(Obj(SPtr(s)), Add(Off(SPtr(s)), i)), vs))),
-		[]Term{Select(h2, MkLoc(Obj(base), Add(Off(base), i)), vs)}))
-	// 2. new elements
-	u.assume(st.pc, Forall([]Term{i}, Implies(And(Le(IntLit(0), i), Lt(i, n)),
-		Eq(Select(h2, MkLoc(Obj(base), Add(Off(base), Add(SLen(s), i))), vs), Select(h, MkLoc(Obj(SPtr(t)), Add(Off(SPtr(t)), i)), vs))),
-		[]Term{Select(h2, MkLoc(Obj(base), Add(Off(base), Add(SLen(s), i))), vs)}))
+	// 1. old elements are where they were (in place) or copied (fresh); stated per case so that triggers are ite-free
+	for _, cs := range []struct {
+		g Term
+		b Term
+	}{{fits, SPtr(s)}, {Not(fits), nb}} {
+		g := And(st.pc, cs.g)
+		u.assume(g, Forall([]Term{i}, Implies(And(Le(IntLit(0), i), Lt(i, SLen(s))),
+			Eq(Select(h2, Elem(cs.b, i), vs), Select(h, Elem(SPtr(s), i), vs))),
+			[]Term{Select(h2, Elem(cs.b, i), vs)}))
+		// 2. new elements
+		if k, ok := smallVarargs(c); ok {
+			for j := 0; j < k; j++ {
+				u.assume(g, Eq(Select(h2, Elem(cs.b, Add(SLen(s), IntLit(int64(j)))), vs), Select(h, Elem(SPtr(t), IntLit(int64(j))), vs)))
+			}
+		} else {
+			u.assume(g, Forall([]Term{i}, Implies(And(Le(IntLit(0), i), Lt(i, n)),
+				Eq(Select(h2, Elem(cs.b, Add(SLen(s), i)), vs), Select(h, Elem(SPtr(t), i), vs))),
+				[]Term{Select(h, Elem(SPtr(t), i), vs)}))
+		}
+	}
 	// 3. frame: every other cell is unchanged
 	inNew := And(Eq(Obj(l), Obj(base)), Le(Add(Off(base), SLen(s)), Off(l)), Lt(Off(l), Add(Off(base), newLen)))
 	u.assume(st.pc, Forall([]Term{l}, Implies(And(Not(inNew), Or(fits, Neq(Obj(l), o))), Eq(Select(h2, l, vs), Select(h, l, vs))),
@@ -615,7 +658,7 @@ func (fr *Frame) appendComposite(c *ssa.CallCommon, et types.Type, s, t Term, st
 	u.assume(True, Ge(ncap, newLen))
 	base := u.define("appbase", Ite(fits, SPtr(s), nb))
 	res := u.define("appres", MkSlice(base, newLen, Ite(fits, SCap(s), ncap)))
-	elemAddr := func(b Term, idx Term) Term { return MkLoc(Obj(b), Add(Off(b), Mul(idx, IntLit(sz)))) }
+	elemAddr := func(b Term, idx Term) Term { return Elem(b, Mul(idx, IntLit(sz))) }
 	i := Sym("i!", SInt)
 	l := Sym("l!", SLoc)
 	for f := 0; f < stt.NumFields(); f++ {
@@ -666,7 +709,7 @@ func (fr *Frame) execCopy(c *ssa.CallCommon, args []Term, st *State, pos token.P
 	h2 := u.fresh("Hcp!"+key, ArraySort(SLoc, vs))
 	i := Sym("i!", SInt)
 	l := Sym("l!", SLoc)
-	at := func(s Term, idx Term) Term { return MkLoc(Obj(SPtr(s)), Add(Off(SPtr(s)), idx)) }
+	at := func(s Term, idx Term) Term { return Elem(SPtr(s), idx) }
 	u.assume(st.pc, Forall([]Term{i}, Implies(And(Le(IntLit(0), i), Lt(i, n)), Eq(Select(h2, at(dst, i), vs), Select(h, at(src, i), vs))), []Term{Select(h2, at(dst, i), vs)}))
 	inDst := And(Eq(Obj(l), Obj(SPtr(dst))), Le(Off(SPtr(dst)), Off(l)), Lt(Off(l), Add(Off(SPtr(dst)), n)))
 	u.assume(st.pc, Forall([]Term{l}, Implies(Not(inDst), Eq(Select(h2, l, vs), Select(h, l, vs))), []Term{Select(h2, l, vs)}))
@@ -749,6 +792,10 @@ func (fr *Frame) execLookup(x *ssa.Lookup, st *State) *State {
 	present := u.define(fr.vname(x)+".ok", And(Neq(xv, NilLoc), Select(dom, kv, SBool)))
 	v := u.define(fr.vname(x), Ite(present, Select(val, kv, vs), w.zero(mt.Elem())))
 	fr.assumeTypeInv(st, v, mt.Elem())
+	if key, ok := u.termOrigin[xv.S]; ok && v.Sort == SLoc {
+		u.assume(True, Implies(present, Neq(v, NilLoc)))
+		u.typeInvUsed[key+"{}"]++
+	}
 	if x.CommaOk {
 		fr.tuples[x] = []Term{v, present}
 	} else {
@@ -762,6 +809,11 @@ func (fr *Frame) execMapUpdate(x *ssa.MapUpdate, st *State) *State {
 	m := fr.val(x.Map)
 	mt := x.Map.Type().Underlying().(*types.Map)
 	u.oblige(fr, "nil-map-write", x.Pos(), fr.srcText(x.Pos(), "map update"), st.pc, Neq(m, NilLoc), false)
+	if key, ok := u.termOrigin[m.S]; ok {
+		if v := fr.val(x.Value); v.Sort == SLoc {
+			u.oblige(fr, "typeinv", x.Pos(), "values stored in "+key+" are non-nil", st.pc, Neq(v, NilLoc), false)
+		}
+	}
 	fr.checkGuardedMapOp(x.Map, true, st, x.Pos())
 	fr.mapSet(st, mt, m, fr.val(x.Key), fr.val(x.Value), true)
 	return st
@@ -798,6 +850,30 @@ func (fr *Frame) execNext(x *ssa.Next, st *State) *State {
 	_ = tup
 	vv := u.define(fr.vname(x)+".v", v)
 	fr.assumeTypeInv(st, vv, mt.Elem())
+	if key, ok2 := u.termOrigin[m.S]; ok2 && vv.Sort == SLoc {
+		u.assume(True, Implies(ok, Neq(vv, NilLoc)))
+		u.typeInvUsed[key+"{}"]++
+	}
 	fr.tuples[x] = []Term{ok, k, vv}
 	return st
+}
+
+// smallVarargs: append(s, a, b, ...) passes its elements in a fresh array of known small length.
+func smallVarargs(c *ssa.CallCommon) (int, bool) {
+	if len(c.Args) < 2 {
+		return 0, false
+	}
+	sl, ok := c.Args[1].(*ssa.Slice)
+	if !ok {
+		return 0, false
+	}
+	al, ok := sl.X.(*ssa.Alloc)
+	if !ok {
+		return 0, false
+	}
+	at, ok := derefType(al.Type()).Underlying().(*types.Array)
+	if !ok || at.Len() > 4 || sl.Low != nil || sl.High != nil {
+		return 0, false
+	}
+	return int(at.Len()), true
 }
